@@ -465,9 +465,17 @@ def run(chk):
         corr, viol = _judge(spec, rec, md if 'mix' in md else None)
         if 'mix' not in md:
             chk.corr(case, 'answer', ans[:80], 'driver answered')
-        elif md.get('selok') != '1':
-            chk.corr(case, 'selok=1', 'selok=%s' % md.get('selok'),
-                     'hypothesis SelectionOk of the C06 theorems holds on the traced graph')
+        elif md.get('selok') != '1' or md.get('names') != '1':
+            chk.corr(case, 'selok=1 names=1', 'selok=%s names=%s' % (md.get('selok'), md.get('names')),
+                     'hypotheses SelectionOk / NamesSane of the C06 theorems hold on the traced graph')
+        elif rec['kind'] == 'hard':
+            applies = SHARED[rec['metric']] or md.get('sites') == '1'
+            key = 'hard:theorem-hypotheses-hold' if applies else 'hard:SitesSane-fails(call sites differ)'
+            chk.hist[key] = chk.hist.get(key, 0) + 1
+            if applies and md.get('export') != 'err':
+                lhs = _fr(md['hard']) + (Fraction(0) if rec['full'] else _fr(md['fixed']))
+                chk.corr(case, _q(lhs), md['export'],
+                         'model instance of hard_cost_eq_export_cost: hard (+ fixed part) = exported cost')
         for what, real, mod in corr:
             chk.corr(case, real, mod, what)
             if real == 'in-band' and mod == 'in-band':
@@ -494,6 +502,7 @@ def run(chk):
         for key, text in viol:
             if key not in first_fail:
                 first_fail[key] = (dict(case, observed=text), text)
+    _probe_observations(chk)
     chk.extra['pit_cross_check'] = {'attempted': pit[0], 'accepted_by_PIT': pit[1], 'rejected_by_PIT': pit[2]}
     broken = bool(chk.proof_broken or chk.corr_disagreements)
     if broken and not [k for k in first_fail if k != K8_KEY]:
@@ -512,6 +521,52 @@ def run(chk):
                         first_fail[key] = (dict(_case(item['spec'], rec), observed=text), text)
     for key, (case, text) in sorted(first_fail.items()):
         chk.violation(key, text, case)
+
+
+def _probe_observations(chk):
+    """Behaviour next to the property's quantifier, recorded as observations only."""
+    common.use_repo_on_path()
+    import torch
+    import torch.nn as nn
+    import torch.nn.functional as F
+    from plinio.methods import SuperNet
+    from plinio.methods.supernet import SuperNetModule
+    from plinio.cost import ops
+
+    class Twice(nn.Module):
+        def __init__(s, c):
+            super().__init__()
+            s.conv = nn.Conv2d(c, c, 3, padding=1)
+
+        def forward(s, x):
+            return s.conv(F.relu(s.conv(x)))
+
+    class Net(nn.Module):
+        def __init__(s):
+            super().__init__()
+            s.c0 = nn.Conv2d(3, 4, 3, padding=1)
+            s.blk0 = SuperNetModule([Twice(4), nn.Identity()])
+
+        def forward(s, x):
+            return s.blk0(F.relu(s.c0(x)))
+
+    try:
+        torch.manual_seed(0)
+        sn = SuperNet(Net(), input_shape=(3, 8, 8), cost=ops, full_cost=True)
+        S.set_alpha(sn, [[1.0, 0.0]])
+        sn.update_softmax_options(hard=True)
+        sn.eval()
+        with torch.no_grad():
+            sn(torch.zeros(1, 3, 8, 8))
+        e = sn.export()
+        real, want = Fraction(float(sn.cost)), _scratch_cost(e, ops, False)
+        if real != want:
+            chk.observe('a layer invoked twice INSIDE a branch is charged once by per-invocation metrics '
+                        '(ops %s vs %s on the exported network): same mechanism as K8 (the combiner holds '
+                        'uniquified leaves); outside C06\'s quantifier (blocks invoked once or twice), not '
+                        'generated' % (float(real), float(want)))
+    except Exception as ex:                                     # noqa: BLE001
+        chk.observe('probe "layer twice inside a branch" could not be run: %s' % type(ex).__name__)
 
 
 # ----------------------------------------------------------------------------- replay
